@@ -1,6 +1,7 @@
 import Holpy.C18.Model
 import Holpy.C18.ModelSimp
 import Holpy.C18.ModelPred
+import Holpy.C18.ModelHelper
 /-
 C18 — the table of modelled rules (`Rule`, `evalRule`), what well-typedness adds (`wellKinded`) and
 the model of whole proofs in evaluation mode.  Import-free (project files only).
@@ -65,6 +66,11 @@ inductive Rule where
   | subproof
   | congRule
   | eqCongruentPred
+  | swapDisj
+  | combineDisj
+  | impToOr
+  | conjPts
+  | disjPts
   deriving DecidableEq, Repr
 
 def Rule.ofName : String → Option Rule
@@ -123,6 +129,11 @@ def Rule.ofName : String → Option Rule
   | "verit_subproof" => some .subproof
   | "verit_cong" => some .congRule
   | "verit_eq_congruent_pred" => some .eqCongruentPred
+  | "swap_disj_to_front" => some .swapDisj
+  | "combine_disj_clauses" => some .combineDisj
+  | "imp_to_or" => some .impToOr
+  | "verit_conj_pts" => some .conjPts
+  | "verit_disj_pts" => some .disjPts
   | _ => none
 
 def Rule.name : Rule → String
@@ -181,10 +192,15 @@ def Rule.name : Rule → String
   | .subproof => "verit_subproof"
   | .congRule => "verit_cong"
   | .eqCongruentPred => "verit_eq_congruent_pred"
+  | .swapDisj => "swap_disj_to_front"
+  | .combineDisj => "combine_disj_clauses"
+  | .impToOr => "imp_to_or"
+  | .conjPts => "verit_conj_pts"
+  | .disjPts => "verit_disj_pts"
 
-def Rule.all : List Rule := [.notOr, .notAnd, .andRule, .orRule, .impliesRule, .notImplies1, .notImplies2, .equiv1, .equiv2, .notEquiv1, .notEquiv2, .ite1, .ite2, .notIte1, .notIte2, .contraction, .notNot, .andPos, .andNeg, .orPos, .orNeg, .impliesPos, .impliesNeg1, .impliesNeg2, .equivPos1, .equivPos2, .equivNeg1, .equivNeg2, .xorPos1, .xorPos2, .xorNeg1, .xorNeg2, .itePos1, .itePos2, .iteNeg1, .iteNeg2, .falseRule, .thResolution, .eqReflexive, .laDisequality, .laRwEq, .eqTransitive, .transRule, .eqCongruent, .notSimplify, .andSimplify, .orSimplify, .impliesSimplify, .equivSimplify, .boolSimplify, .iteSimplify, .connectiveDef, .subproof, .congRule, .eqCongruentPred]
+def Rule.all : List Rule := [.notOr, .notAnd, .andRule, .orRule, .impliesRule, .notImplies1, .notImplies2, .equiv1, .equiv2, .notEquiv1, .notEquiv2, .ite1, .ite2, .notIte1, .notIte2, .contraction, .notNot, .andPos, .andNeg, .orPos, .orNeg, .impliesPos, .impliesNeg1, .impliesNeg2, .equivPos1, .equivPos2, .equivNeg1, .equivNeg2, .xorPos1, .xorPos2, .xorNeg1, .xorNeg2, .itePos1, .itePos2, .iteNeg1, .iteNeg2, .falseRule, .thResolution, .eqReflexive, .laDisequality, .laRwEq, .eqTransitive, .transRule, .eqCongruent, .notSimplify, .andSimplify, .orSimplify, .impliesSimplify, .equivSimplify, .boolSimplify, .iteSimplify, .connectiveDef, .subproof, .congRule, .eqCongruentPred, .swapDisj, .combineDisj, .impToOr, .conjPts, .disjPts]
 
-/-- `eval` of the macro registered under the rule name; `sizes` is only read by resolution -/
+/-- `eval` of the macro registered under the rule name; `sizes` is read by resolution and by the helper macros swap_disj_to_front / combine_disj_clauses (ModelHelper.lean) -/
 def evalRule : Rule → List Tm → List Nat → List Seq → Except Err Seq
   | .notOr, cl, _, ps => Holpy.C18.notOr cl ps
   | .notAnd, cl, _, ps => Holpy.C18.notAnd cl ps
@@ -241,6 +257,11 @@ def evalRule : Rule → List Tm → List Nat → List Seq → Except Err Seq
   | .subproof, cl, _, ps => Holpy.C18.subproof cl ps
   | .congRule, cl, _, ps => Holpy.C18.congRule cl ps
   | .eqCongruentPred, cl, _, _ => Holpy.C18.eqCongruentPred cl
+  | .swapDisj, cl, sizes, ps => Holpy.C18.swapDisj cl sizes ps
+  | .combineDisj, cl, sizes, ps => Holpy.C18.combineDisj cl sizes ps
+  | .impToOr, cl, _, ps => Holpy.C18.impToOr cl ps
+  | .conjPts, _, _, ps => Holpy.C18.conjPts ps
+  | .disjPts, _, _, ps => Holpy.C18.disjPts ps
 
 /-- the goal of a simplification rule `lhs <--> rhs` is `equals` at type bool -/
 def goalIsIff : List Tm → Bool
